@@ -41,14 +41,14 @@ theorem webSt_step (s : State) (w : Option Nat) (i hi : Nat) (h : i < hi) :
     · have : ¬ (i ≤ j ∧ j < hi) := by omega
       simp [h1, h2, this]
 
-theorem clearRange_eq (k : Nat) : ∀ (fuel i : Nat) (s : State),
+theorem clearRange_eq (k : Nat) (deref : Bool) : ∀ (fuel i : Nat) (s : State),
     (∀ j, i ≤ j → j < i + fuel → j < s.n ∧ (s.pieces j).webseed = some k) →
-    clearRange k fuel i s = .ok (webSt s none i (i + fuel))
+    clearRange k deref fuel i s = .ok (webSt s none i (i + fuel))
   | 0, i, s, _ => by simp [clearRange, webSt_empty]
   | fuel + 1, i, s, h => by
     have hi := h i (Nat.le_refl _) (by omega)
     simp only [clearRange, hi.1, hi.2, if_true]
-    rw [clearRange_eq k fuel (i + 1)]
+    rw [clearRange_eq k deref fuel (i + 1)]
     · rw [show i + 1 + fuel = i + (fuel + 1) by omega, webSt_step _ _ _ _ (by omega)]
     · intro j h1 h2
       have := h j (by omega) (by omega)
@@ -100,7 +100,7 @@ theorem closeWebseed_eq (s : State) (k : Nat) (d : Dl) (hd : s.srcs k = some d) 
     closeWebseed s k = .ok (closeSt s k d) := by
   unfold closeWebseed closeSt
   simp only [hd]
-  rw [clearRange_eq k (d.e - d.b) d.b s (by intro j h1 h2; exact hown j h1 (by omega))]
+  rw [clearRange_eq k false (d.e - d.b) d.b s (by intro j h1 h2; exact hown j h1 (by omega))]
   simp [bind, Except.bind, pure, Except.pure, show d.b + (d.e - d.b) = d.e by omega]
 
 theorem closeSt_core (s : State) (k : Nat) (d : Dl) (h : PickCore s) (hk : k < s.ns) (hd : s.srcs k = some d) :
@@ -136,7 +136,7 @@ theorem webseedStopAt_eq (s : State) (k : Nat) (d : Dl) (i : Nat) (hs : SrcOk s)
   obtain ⟨hbc, hce, hen, hown⟩ := srcOk_own hs hk hd
   unfold webseedStopAt stopSt
   simp only [hd]
-  rw [clearRange_eq k (d.e - i) i s (by intro j h1 h2; exact hown j (by omega) (by omega))]
+  rw [clearRange_eq k true (d.e - i) i s (by intro j h1 h2; exact hown j (by omega) (by omega))]
   simp only [bind, Except.bind, pure, Except.pure, show i + (d.e - i) = d.e by omega]
   split
   · rename_i hci
